@@ -98,11 +98,19 @@ def extract(tree):
     m = _need(re.search(r"if\s*\(\s*c\s*>=\s*(\d+)\s*&&\s*c\s*<=\s*(\d+)\s*\)\s*\{\s*buf\[i\]\s*=\s*c\s*-\s*(\d+)\s*;", up), "ascii-upper loop")
     d["upperFrom"], d["upperTo"], d["upperSub"] = map(int, m.groups())
     # self-alias guards in buffer.c
-    guard = (r"if\s*\(\s*view\.bytes\s*==\s*buffer->data\s*\)\s*\{\s*janet_buffer_ensure\s*\(\s*buffer\s*,\s*buffer->count\s*\+\s*view\.len\s*,\s*(\d+)\s*\)\s*;"
-             r"\s*view\.bytes\s*=\s*buffer->data\s*;\s*\}\s*janet_buffer_push_bytes\s*\(\s*buffer\s*,\s*view\.bytes\s*,\s*view\.len\s*\)")
-    g1 = re.search(guard, core_fn_body(buffer, "cfun_buffer_chars"))
-    g2 = re.search(guard, func_body(buffer, "buffer_push_impl"))
-    d["pushSelfGuard"] = bool(g1 and g2)
+    # two accepted shapes of the guard: growing with janet_buffer_ensure(count + len) (pinned tree) or with
+    # janet_buffer_extra(len) (which checks count + len in 64 bits); both functions must use the same one
+    pre_ensure = r"janet_buffer_ensure\s*\(\s*buffer\s*,\s*buffer->count\s*\+\s*view\.len\s*,\s*(\d+)\s*\)"
+    pre_extra = r"janet_buffer_extra\s*\(\s*buffer\s*,\s*view\.len\s*\)"
+
+    def guard_re(pre):
+        return (r"if\s*\(\s*view\.bytes\s*==\s*buffer->data\s*\)\s*\{\s*" + pre + r"\s*;"
+                r"\s*view\.bytes\s*=\s*buffer->data\s*;\s*\}\s*janet_buffer_push_bytes\s*\(\s*buffer\s*,\s*view\.bytes\s*,\s*view\.len\s*\)")
+    chars, impl = core_fn_body(buffer, "cfun_buffer_chars"), func_body(buffer, "buffer_push_impl")
+    via_ensure = bool(re.search(guard_re(pre_ensure), chars) and re.search(guard_re(pre_ensure), impl))
+    via_extra = bool(re.search(guard_re(pre_extra), chars) and re.search(guard_re(pre_extra), impl))
+    d["pushSelfGuard"] = via_ensure or via_extra
+    d["pushSelfViaExtra"] = via_extra
     bl = core_fn_body(buffer, "cfun_buffer_blit")
     d["blitSelfGuard"] = bool(re.search(r"int\s+same_buf\s*=\s*src\.bytes\s*==\s*dest->data\s*;", bl)
                               and re.search(r"if\s*\(\s*same_buf\s*\)\s*\{\s*src\.bytes\s*=\s*dest->data\s*;\s*memmove\s*\(\s*dest->data\s*\+\s*offset_dest\s*,\s*src\.bytes\s*\+\s*offset_src\s*,\s*length_src\s*\)", bl))
@@ -144,6 +152,9 @@ def render(tree):
          "/-- buffer/push and buffer/push-string re-fetch `view.bytes = buffer->data` after `janet_buffer_ensure` when the",
          "    pushed view is the destination buffer itself -/",
          "abbrev pushSelfGuard : Bool := %s" % b(d["pushSelfGuard"]),
+         "/-- the guard grows the buffer with `janet_buffer_extra(buffer, view.len)` (true) rather than with",
+         "    `janet_buffer_ensure(buffer, buffer->count + view.len, 2)` (false) -/",
+         "abbrev pushSelfViaExtra : Bool := %s" % b(d["pushSelfViaExtra"]),
          "/-- buffer/blit re-fetches the source pointer and uses memmove when src is dest -/",
          "abbrev blitSelfGuard : Bool := %s" % b(d["blitSelfGuard"]),
          "/-- corelib.c range: an aborting `janet_assert(start + int_count * step >=/<= stop)` follows the count computation -/",
